@@ -28,9 +28,11 @@ RenderDate(d) == WdName(d.wd) \o <<COMMA, SP>> \o TwoDigits(d.day) \o <<SP>> \o 
 \* the version as WRITTEN in the header (vtext) may differ in spelling from the version it denotes (e.g. an epoch with a
 \* leading zero); entries without a vtext field are written as their version
 VText(e) == IF "vtext" \in DOMAIN e THEN e.vtext ELSE e.version
+\* the options are separated by a comma; the blank after it is customary, not required (dpkg splits at \s*,\s*)
+OSep(e) == IF "osep" \in DOMAIN e THEN e.osep ELSE <<COMMA, SP>>
 RenderHeader(e) ==
     e.source \o <<SP, LPAREN>> \o VText(e) \o <<RPAREN, SP>> \o Join(e.dists, <<SP>>) \o <<59, SP>> \o   \* ";"
-    Join([k \in 1..Len(e.opts) |-> e.opts[k][1] \o <<EQ>> \o e.opts[k][2]], <<COMMA, SP>>)
+    Join([k \in 1..Len(e.opts) |-> e.opts[k][1] \o <<EQ>> \o e.opts[k][2]], OSep(e))
 RenderTrailer(e) == <<SP, HYPHEN, HYPHEN, SP>> \o e.maint \o <<SP, SP>> \o RenderDate(e.date)
 RenderEntry(e) == RenderHeader(e) \o <<LF>> \o Concat([k \in 1..Len(e.body) |-> e.body[k] \o <<LF>>]) \o RenderTrailer(e) \o <<LF>>
 
